@@ -293,14 +293,43 @@ func paramMatches(v ssa.Value, want string) bool {
 // tagLookupOf: if v derives (through conversions/extract) from a map look-up
 // with a constant key on the result of model.EEBusTags, return that key.
 func tagLookupOf(v ssa.Value) string {
-	for i := 0; i < 6; i++ {
+	for i := 0; i < 10; i++ {
 		switch x := v.(type) {
 		case *ssa.ChangeType:
 			v = x.X
 		case *ssa.Convert:
 			v = x.X
 		case *ssa.Extract:
+			// one result of a repository helper that returns the tag value (possibly next to an ok flag)
+			if hc, isCall := x.Tuple.(*ssa.Call); isCall {
+				if rv := helperResult(hc, x.Index); rv != nil {
+					v = rv
+					continue
+				}
+			}
 			v = x.Tuple
+		case *ssa.Call:
+			if rv := helperResult(x, 0); rv != nil {
+				v = rv
+				continue
+			}
+			return ""
+		case *ssa.Phi:
+			// "" on the paths that found nothing, the tag otherwise
+			var alt ssa.Value
+			for _, e := range x.Edges {
+				if s, isS := constString(e); isS && s == "" {
+					continue
+				}
+				if alt != nil && alt != e {
+					return ""
+				}
+				alt = e
+			}
+			if alt == nil {
+				return ""
+			}
+			v = alt
 		case *ssa.Lookup:
 			if call, ok := x.X.(*ssa.Call); ok && staticCallee(&call.Call, repoMod+"/model", "", "EEBusTags") {
 				if s, ok := constString(x.Index); ok {
@@ -505,6 +534,16 @@ func fieldIndexOfTag(v ssa.Value) (ssa.Value, bool) {
 			}
 			for _, a := range x.Call.Args {
 				walk(a, d+1)
+			}
+			// a repository helper returning the tag: what it returns derives from its own look-up
+			if h := x.Call.StaticCallee(); h != nil && h.Blocks != nil && strings.HasPrefix(fnPkgPath(h), repoMod) && !isExportedFn(originOf(h)) {
+				for _, b := range h.Blocks {
+					if ret, isRet := b.Instrs[len(b.Instrs)-1].(*ssa.Return); isRet {
+						for _, rv := range ret.Results {
+							walk(rv, d+1)
+						}
+					}
+				}
 			}
 		case *ssa.ChangeType:
 			walk(x.X, d+1)
@@ -943,4 +982,34 @@ func c18AccessorSkips(p *Prog, r *Report, rule string) {
 		r.Check(rule, "model."+typ+".Data|presence-from-field", bad == "", p.Pos(fn.Pos()), fmt.Sprintf("%d reflective predicates decide branches; %s", nPred, bad))
 	}
 	r.Floor(rule, "reflective predicates deciding branches in the accessors", n, 3)
+}
+
+// helperResult: the value an unexported repository helper returns as result idx,
+// if all its returns that do not yield the zero string agree on one value
+// (the helper's parameters are not substituted: used for tag look-ups, which
+// depend on the struct field handed in only through model.EEBusTags).
+func helperResult(c *ssa.Call, idx int) ssa.Value {
+	h := c.Call.StaticCallee()
+	if h == nil || h.Blocks == nil || !strings.HasPrefix(fnPkgPath(h), repoMod) || isExportedFn(originOf(h)) {
+		return nil
+	}
+	var res ssa.Value
+	for _, b := range h.Blocks {
+		ret, isRet := b.Instrs[len(b.Instrs)-1].(*ssa.Return)
+		if !isRet {
+			continue
+		}
+		if idx >= len(ret.Results) {
+			return nil
+		}
+		rv := ret.Results[idx]
+		if s, isS := constString(rv); isS && s == "" {
+			continue
+		}
+		if res != nil && res != rv {
+			return nil
+		}
+		res = rv
+	}
+	return res
 }
